@@ -21,16 +21,27 @@ CFG = dict(
          "value of every option a fix-compatible rule reads (48 configurations, listed in stats), rule alone and inside its group / all; synth: generated "
          "queries with 1-4 sources (tables, aliased and unaliased derived tables, nested, VALUES, LATERAL, table functions, CTE references, FROM elements / "
          "JOIN clauses / SELECTs cut out of the fixtures) x every join kind the dialect parses (semi, anti, asof, natural, comma ...) x ON / USING / none, "
-         "alone or under CTEs, set operators, INSERT / CREATE .. AS, derived wrappers. selections: all, core, the 7 groups, every fix-compatible single "
+         "alone or under CTEs, set operators, INSERT / CREATE .. AS, derived wrappers; snippet: the repository's own yaml cases of each rule under the rule, all, "
+         "and every non-default option value of the rule (alone / group / all); script: 2-3 statements in one file, each ended in one of nine ways "
+         "(terminator on the line, on its own line, before / behind an inline or block comment, next statement on the same line, none at the end of "
+         "the file), statements as in the fixtures or one token group per line, under all x {default, every configuration of the terminator rule, a "
+         "combined one, another rule's option} and narrower selections by lot; templated-*: sources of the placeholder templater whose rendered text "
+         "parses (source and fix output are parsed through the templater): token-level twins (one value or a short run of tokens per placeholder, a "
+         "random subset or exactly one; the template renders to the text it was made from) of rule cases, fixture statements (as is / one token group "
+         "per line / scrambled) and generated queries, c04::templatise over fixture statements, c04::gen_shape. selections: all, core, the 7 groups, every fix-compatible single "
          "rule; configurations: default, the 48 option configurations, two combined ones (first / last non-default value of every rule at once), the layout "
-         "configurations of C06. observation: fix output re-parsed with the same dialect and configuration must have 0 Unparsable nodes and 0 parse "
+         "configurations of C06; each also with the placeholder templater and per-input parameters. observation: fix output re-parsed with the same dialect and configuration must have 0 Unparsable nodes and 0 parse "
          "violations; a failure is classed by (dialect, rule whose batch first made the text unparsable - found by replaying the recorded batches -, that "
-         "rule's non-default options, and for a layout-only batch the tokens at which the parser stops). non-trivial = the fix changed the text "
+         "rule's non-default options, and for a layout-only batch the tokens at which the parser stops; an earlier batch whose text no longer re-lexes to the code leaves of its tree - fused "
+         "tokens, code behind an inline comment - takes the blame from the batch that made it visible; a templated failure carries ':templated' unless "
+         "the rendered text fails as a plain file too, and is classed fixed-file-is-not-the-fixed-tree when every batch left a parsable tree but the "
+         "fixed file does not render to the final tree). non-trivial = the fix changed the text "
          "(counted as changed_by_fix); no correspondence cases in this property",
     assumptions=["a crash of fix (C03's subject) leaves nothing to observe: counted and skipped",
                  "CV10 force_enable is explored only in the dialects whose double-quoted tokens are string literals (bigquery, sparksql, databricks, mysql): "
                  "elsewhere the option is documented as turning literals into identifiers",
-                 "inputs that do not parse cleanly are outside the property's quantifier: counted and skipped"],
+                 "inputs that do not parse cleanly are outside the property's quantifier: counted and skipped",
+                 "templated inputs: only the placeholder templater (pure Rust); a parameter set the configuration rejects is counted and skipped"],
 )
 
 
